@@ -319,7 +319,7 @@ def run_property(prop, tier="quick", only=None, jobs=None, seed=0, verbose=True)
             conclusive_all = False
             say(f"INCONCLUSIVE kernel={rep['kernel']} reason={'; '.join(rep['inconclusive'])[:300]}")
         say(f"  [{prop}/{rep['kernel']}] {status} engine={rep['engine']} paths={rep['paths']} "
-            f"queries={rep['queries']} (unsat={rep['q_unsat']} sat={rep['q_sat']}) "
+            f"queries={rep['queries']} (unsat={rep['q_unsat']} sat={rep['q_sat']} trivial={rep['q_simplified']}) "
             f"forks(repo/harness)={len(rep['fork_sites_in_repo'])}/{len(rep['fork_sites_in_harness'])} "
             f"cex={rep['counterexamples']} known={rep['counterexamples_known']} "
             f"solver={rep['solver_s']:.1f}s wall={rep['wall_s']:.1f}s")
@@ -416,6 +416,7 @@ def _summarise_kernel(k, tier, res):
         "paths_reaching_assertion": st.get("paths_with_require", 0),
         "feasibility_checks": st.get("checks", 0), "queries": st.get("queries", 0),
         "q_unsat": st.get("q_unsat", 0), "q_sat": st.get("q_sat", 0),
+        "q_simplified": st.get("q_simplified", 0),
         "q_unknown": st.get("q_unknown", 0) + st.get("unknown", 0),
         "solver_s": round(st.get("solver_s", 0.0), 2),
         "wall_s": round(max([p["wall_s"] for p in parts] or [0]), 2),
